@@ -7,7 +7,13 @@ namespace BPS
 open BP
 open LB (Byte)
 
-theorem lookup_render (s : SymFile) (h : WF s) (a : Nat) :
+theorem wfAt_of_wf (s : SymFile) (h : WF s) (a : Nat) : WFAt s a := by
+  refine ⟨h.index, ?_⟩
+  intro r hr size hsz _ halt
+  obtain ⟨hinl, hlines⟩ := h.bodies r hr size hsz
+  exact ⟨inlAt_of_inlOK _ hinl a, linesAsc_of_linesOK _ _ hlines, lineAt_of_linesOK _ _ a hlines halt⟩
+
+theorem lookup_render_at (s : SymFile) (a : Nat) (h : WFAt s a) :
     lookup (render s) (specIndex s) a = readDirectly s a := by
   have hw := h.index
   -- the text and what lies behind the entries of the index
@@ -100,17 +106,17 @@ theorem lookup_render (s : SymFile) (h : WF s) (a : Nat) :
       · simp [hend]
       · simp only [hend, if_false]
         have halt : a < r.addr + size := by rw [← hrA]; omega
-        obtain ⟨hinl, hlines⟩ := h.bodies r (by rw [hRd]; exact hr) size hsz
+        obtain ⟨hinl, hasc, hlat⟩ := h.body r (by rw [hRd]; exact hr) size hsz (by rw [← hrA]; exact hle) halt
         have hstep : ∀ d, (inlineeAt ((inlineesOf r.body).mergeSort inlLE) d a).map triple = inlineAt r.body d a := by
           intro d
-          rw [inlineeAt_sorted _ hinl, covering_inlineAt]
+          rw [inlineeAt_sorted_at _ a hinl, covering_inlineAt]
         have hfuel : ((inlineesOf r.body).mergeSort inlLE).length + 1 = rangeCount r.body + 1 := by
           rw [List.length_mergeSort, inlineesOf_length]
         rw [hfuel]
         rw [frames_eq (render s) (specIndex s) s.lines r.body
           ⟨r.name, size, linesOf r.body, (inlineesOf r.body).mergeSort inlLE⟩ a hfiles horigins hstep]
         simp only [List.nil_append]
-        rw [sourceLoc_spec (linesOf r.body) (r.addr + size) a hlines halt]
+        rw [sourceLoc_spec_at (linesOf r.body) a hasc hlat]
         have hla := cover_lineAt r.body a
         cases hfl : (linesOf r.body).find? (coverL a) with
         | none =>
@@ -123,5 +129,9 @@ theorem lookup_render (s : SymFile) (h : WF s) (a : Nat) :
           simp only [Option.map_some] at hla
           rw [← hla]
           simp [hfiles]
+
+theorem lookup_render (s : SymFile) (h : WF s) (a : Nat) :
+    lookup (render s) (specIndex s) a = readDirectly s a :=
+  lookup_render_at s a (wfAt_of_wf s h a)
 
 end BPS
